@@ -552,7 +552,7 @@ void seqx_run(seqx::Runner &R, const std::string &tier) {
         enumerate(R, 2, 3, 2, full);
         enumerate(R, 2, 4, 1, {PAUSE, RESD, RESA, AW, LOCK, RELD, RELA, DETD, DETA, STARTF, COAWAIT});
         enumerate(R, 3, 2, 2, full);
-        enumerate(R, 3, 3, 2, {PAUSE, RESD, AW, RELD, LOCK, DETD, STARTF, COAWAIT, RES2D});
+        enumerate(R, 3, 3, 1, {PAUSE, RESD, AW, DETD, STARTF, COAWAIT});
         enumerate(R, 4, 2, 2, {PAUSE, RESD, AW, DETD, STARTF, RES2D});
     }
 }
